@@ -186,6 +186,19 @@ def check(ctx):
                    msg="the container stored as %s[addr] is %s: subscribe and unsubscribe requests would share one window (counted together, "
                        "acknowledged by each other's packets, re-sent twice on resume)" % (e.a["reg"], show(v)), nontrivial=False)
     ctx.count("accept_paths", n_accept)
+    # S-TIMER: one retry timer per pending request, none that nothing can cancel any more (a request failed by the loss of its
+    # connection whose timer lives on is both failed and sent again)
+    from .c13 import timer_discipline
+    from ..handles import handles
+    for cls in classes:
+        timer_discipline(ctx, a, cls, regs=("windowSubscribe", "windowUnsubscribe"), r_cancel="S-TIMER", r_arm="S-TIMER")
+        hd = handles(a, cls)
+        for tr, what, ok, ev in hd.loss_obligations():
+            if "windowSubscribe" in what or "windowUnsubscribe" in what:
+                fnc = tr.entry.func
+                ctx.ob("S-TIMER", "%s loss: %s" % (cls_short(cls.qual), what), ok, where=where(ev) if ev is not None else "%s:%d" % (fnc.file, fnc.node.lineno),
+                       function=fnc.qual, construct="%s/loss/%s" % (cls.qual, what), nontrivial=False,
+                       msg="connectionLost: %s fails on a path: the retry timer of a request of the lost connection keeps re-sending it" % what)
     ctx.floor("subscribe/unsubscribe accepting paths", n_accept, 4)
 
 
